@@ -56,17 +56,32 @@ def check_r04a(repo, rep):
         rep.ob('R04a', gd.key + '/per-invocation', f is not gd,
                'the payload must be called from the returned thunk, not '
                'while the delegate is being built', loc=mod.loc(call))
-        # names handed to the argument thunks
+        # names handed to the argument thunks: a call, anywhere in the
+        # thunk, of something that is itself a parameter of a nested
+        # lambda/def or a comprehension variable (the stored converters
+        # reach the call only as such), with a plain name as first argument
         ctx_names = set()
-        for n in ast.walk(call):
+        bound = set()
+        for n in ast.walk(f.node):
+            if n is f.node:
+                continue
+            if isinstance(n, (ast.Lambda, ast.FunctionDef)):
+                bound |= {a.arg for a in n.args.posonlyargs + n.args.args +
+                          n.args.kwonlyargs}
+            elif isinstance(n, ast.comprehension):
+                bound |= {t.id for t in ast.walk(n.target)
+                          if isinstance(t, ast.Name)}
+            elif isinstance(n, ast.For):
+                bound |= {t.id for t in ast.walk(n.target)
+                          if isinstance(t, ast.Name)}
+        for n in ast.walk(f.node):
             if isinstance(n, ast.Call) and n is not call and n.args and \
-                    isinstance(n.args[0], ast.Name) and isinstance(
-                        n.func, (ast.Name, ast.Subscript)) and \
-                    not isinstance(n.func, ast.Attribute):
-                fn = n.func.id if isinstance(n.func, ast.Name) else None
-                if fn in ('tuple', 'dict', 'map', 'list'):
-                    continue
-                ctx_names.add(n.args[0].id)
+                    isinstance(n.args[0], ast.Name):
+                fn = n.func
+                while isinstance(fn, ast.Subscript):
+                    fn = fn.value
+                if isinstance(fn, ast.Name) and fn.id in bound:
+                    ctx_names.add(n.args[0].id)
         rep.ob('R04a', gd.key + '/thunks-get-a-context', bool(ctx_names),
                'no context is handed to the argument converters',
                loc=mod.loc(call))
